@@ -311,6 +311,15 @@ func processItem(c *Ctx, st *injStats, pipe *pipeline.Pipe, ld *pipeline.Loader,
 		}
 		t0 := time.Now()
 		cp := symx.ExtractInjector(eng, it.SSA, f)
+		// the reference speaks of every field of the declaration's struct expansions, also of
+		// those the generated code happens not to read on any path
+		for _, pr := range d.Provs {
+			if pr.Kind == corpus.KStruct {
+				for _, fld := range pr.Fields {
+					cp.Flds["fld_"+corpus.Sanitize(strings.TrimPrefix(pr.Struct, "*"))+"_"+fld] = true
+				}
+			}
+		}
 		enc, err := conc.Build(cp)
 		dt := time.Since(t0).Nanoseconds()
 		st.mu.Lock()
